@@ -94,6 +94,14 @@ const GlobalConfig = `[user]
 [gc]
 	auto = 0
 `
+// OneShotFilters configures filter.lfs.clean/smudge only (no long-running process filter).
+func OneShotFilters() Opt { return func(e *Env) { e.Extra = append(e.Extra, "VERIF_SBX_ONESHOT=1") } }
+
+const OneShotFilterConfig = `[filter "lfs"]
+	clean = git-lfs clean -- %f
+	smudge = git-lfs smudge -- %f
+	required = true
+`
 const FilterConfig = `[filter "lfs"]
 	clean = git-lfs clean -- %f
 	smudge = git-lfs smudge -- %f
@@ -112,13 +120,18 @@ func New(opts ...Opt) *Env {
 	must(os.MkdirAll(filepath.Join(root, "xdg"), 0o755))
 	must(os.MkdirAll(filepath.Join(root, "tmp"), 0o755))
 	cfg := GlobalConfig
-	nof := false
+	nof, oneshot := false, false
 	for _, x := range e.Extra {
 		if x == "VERIF_SBX_NOFILTERS=1" {
 			nof = true
 		}
+		if x == "VERIF_SBX_ONESHOT=1" {
+			oneshot = true
+		}
 	}
-	if !nof {
+	if oneshot {
+		cfg += OneShotFilterConfig
+	} else if !nof {
 		cfg += FilterConfig
 	}
 	must(os.WriteFile(filepath.Join(e.Home, ".gitconfig"), []byte(cfg), 0o644))
@@ -167,7 +180,7 @@ func (e *Env) Environ() []string {
 		env = append(env, "GORACE=halt_on_error=0 log_path="+filepath.Join(e.Root, "race.log"))
 	}
 	for _, x := range e.Extra {
-		if x != "VERIF_SBX_NOFILTERS=1" {
+		if x != "VERIF_SBX_NOFILTERS=1" && x != "VERIF_SBX_ONESHOT=1" {
 			env = append(env, x)
 		}
 	}
